@@ -84,6 +84,14 @@ def gen_scopes(run):
     run.dyn_compile(['ScopesGen', 'ScopesProps'])
     return ok
 
+def gen_target(run, n=240):
+    """the wrapper traversal that picks the set `set` / `rm` may mutate: regenerated, proved about, and run against the implementation in recorded table worlds"""
+    ok = run.generate('target2v(cli/manipulations.py: _resolve_target_set_from_expr with its nested helpers, _resolve_identifier_target, _resolve_target_set)',
+                      ['-W', 'ignore', os.path.join(VERIF, 'tools', 'target2v.py'), REPO], 'TargetGen.v')
+    run.dyn_compile(['TargetGen', 'TargetProps'])
+    if ok: run.suite('target', 'target_corr.py', [run.seed, n * (5 if run.tier == 'thorough' else 1)], 'TG')
+    return ok
+
 def gen_cli(run):
     return run.generate('cli2v(cli/main.py:main match arms)', ['-W', 'ignore', os.path.join(VERIF, 'tools', 'cli2v.py'), REPO], 'CliGen.v')
 
@@ -125,13 +133,13 @@ def edit_family(run, search_prop, n_quick=900, n_thorough=6000, corr=True, pre=N
         r = oracle_finding(run, f)
     run.assumptions += EDIT_ASSUME
 
-def C08(run): edit_family(run, 'C08')
+def C08(run): edit_family(run, 'C08', pre=gen_target)
 def C04(run):
-    edit_family(run, 'C04', pre=gen_layers)
+    edit_family(run, 'C04', pre=lambda r: (gen_layers(r), gen_target(r)))
     # edits whose path holds a reference: only the defining binding may change (the same search as C05/C11, judged as "touches only …")
     oracle(run, 'reference-edit-search', 'resolve_search.py', ['C04', run.seed, 3000 if run.tier == 'thorough' else 500], timeout=3000)
 def C05(run):
-    edit_family(run, 'C05')
+    edit_family(run, 'C05', pre=gen_target)
     # edits whose path holds a reference (let layers, shadowing, alias chains): the binding that is rewritten must be the defining one, nothing else changes
     oracle(run, 'reference-edit-search', 'resolve_search.py', ['C05', run.seed, 3000 if run.tier == 'thorough' else 500], timeout=3000)
 def C19(run): edit_family(run, 'C19', n_quick=1500, n_thorough=10000)
@@ -275,6 +283,7 @@ def C15(run):
 
 def C20(run):
     run.static()
+    gen_target(run, 120)  # the wrapper traversal terminates on every document (C20_target_total)
     gen_gap(run)          # the blank-line pattern is of the shape literal class* literal (no nested quantifier): regenerated and proved equal to a structural scan
     rc, out = sh([PY, '-W', 'ignore', os.path.join(VERIF, 'tools', 'regex_shapes.py'), REPO], timeout=120)      # twelfth round: every pattern the package hands to `re`, not only the one gap2v translates
     run.oblige('scan:regex-star-height(every pattern passed to re.*: no unbounded repetition nested in a repetition; non-literal patterns refused)', rc == 0,
